@@ -331,11 +331,15 @@ pub fn run(ctx: Ctx) -> i32 {
                     continue;
                 }
                 let (_, er, et, ep) = family(f, c);
-                let sizes_ok = (er == usize::MAX && v["in_range"] == json!(true)) || v["rules"].as_u64() == Some(er as u64 + 1) && v["tokens"].as_u64() == Some(et as u64 + 1) && v["prods"].as_u64() == Some(ep as u64 + 1) && v["in_range"] == json!(true);
+                let sizes_ok = if er == usize::MAX { v["in_range"] == json!(true) } else { v["rules"].as_u64() == Some(er as u64 + 1) && v["tokens"].as_u64() == Some(et as u64 + 1) && v["prods"].as_u64() == Some(ep as u64 + 1) && v["in_range"] == json!(true) };
                 if !sizes_ok {
                     ctx.violation(
                         "c20-wrap",
-                        &format!("family {} with c = {} accepted in {} but reports rules_len {} tokens_len {} prods_len {} (indices in range: {}); the source has {} + 1 rules, {} + 1 tokens, {} + 1 productions", f, c, w, v["rules"], v["tokens"], v["prods"], v["in_range"], er, et, ep),
+                        &if er == usize::MAX {
+                            format!("family {} with c = {} accepted in {} but hands out inconsistent sizes / indices (rules_len {} tokens_len {} prods_len {}; every index below its length and prod_len(p) == prod(p).len() for every production: {})", f, c, w, v["rules"], v["tokens"], v["prods"], v["in_range"])
+                        } else {
+                            format!("family {} with c = {} accepted in {} but reports rules_len {} tokens_len {} prods_len {} (indices in range: {}); the source has {} + 1 rules, {} + 1 tokens, {} + 1 productions", f, c, w, v["rules"], v["tokens"], v["prods"], v["in_range"], er, et, ep)
+                        },
                         case.clone(),
                     );
                 }
